@@ -1,6 +1,6 @@
 (* C16 — Evaluation computes the diagram's function and refuses cyclic diagrams.
    Property theorems only: each statement is spelled out and closed by [exact] of a lemma proved in Proofs/. *)
-From OHG Require Import Spec.GraphSpec Proofs.C16Lemmas Proofs.C16Thm Proofs.C16Iso Proofs.Assemble.
+From OHG Require Import Spec.GraphSpec Proofs.C16Lemmas Proofs.C16Thm Proofs.C16Iso Proofs.Assemble Proofs.EvalPlain Proofs.EvalFunctor Proofs.EvalMono.
 
 Theorem C16_refuses_iff_cyclic : forall B : Backend,
        BackendOK B ->
@@ -98,6 +98,150 @@ Proof. exact (@Assemble.C20_eval). Qed.
 Theorem C16_layers_of_layering : forall B : Backend, BackendOK B -> conv_layers_spec B.
 Proof. exact (@Assemble.conv_layers_ok). Qed.
 
+Theorem C16_eval_singleton : forall B : Backend,
+       BackendOK B ->
+       forall (O A T : Type) (d : T) (interp : A -> list T -> list T)
+         (apply : list A -> ic (list T) -> res (ic (list T))),
+       apply_spec interp apply ->
+       forall (x : A) (a b : list O),
+       (forall vals : list T, length vals = length a -> length (interp x vals) = length b) ->
+       exists f : ohg O A,
+         ohg_singleton x a b = Ok f /\
+         evaluable interp f /\
+         (forall inp : list T, length inp = length a -> sem B d apply f inp (interp x inp)).
+Proof. exact (@E0_singleton). Qed.
+
+Theorem C16_eval_identity : forall B : Backend,
+       BackendOK B ->
+       forall (O A T : Type) (d : T) (interp : A -> list T -> list T)
+         (apply : list A -> ic (list T) -> res (ic (list T))),
+       apply_spec interp apply ->
+       forall w : list O,
+       exists f : ohg O A,
+         ohg_identity A w = Ok f /\
+         evaluable interp f /\ (forall inp : list T, length inp = length w -> sem B d apply f inp inp).
+Proof. exact (@E1_identity). Qed.
+
+Theorem C16_eval_twist : forall B : Backend,
+       BackendOK B ->
+       forall (O A T : Type) (d : T) (interp : A -> list T -> list T)
+         (apply : list A -> ic (list T) -> res (ic (list T))),
+       apply_spec interp apply ->
+       forall a b : list O,
+       exists f : ohg O A,
+         ohg_twist A a b = Ok f /\
+         evaluable interp f /\
+         (forall x y : list T,
+          length x = length a -> length y = length b -> sem B d apply f (x ++ y) (y ++ x)).
+Proof. exact (@E1_twist). Qed.
+
+Theorem C16_eval_discrete : forall B : Backend,
+       BackendOK B ->
+       forall (O A T : Type) (d : T) (interp : A -> list T -> list T)
+         (apply : list A -> ic (list T) -> res (ic (list T))),
+       apply_spec interp apply ->
+       forall (f : ohg O A) (inp : list T),
+       wf_ohg f ->
+       h_x (o_h f) = [] ->
+       NoDup (table (o_s f)) ->
+       evaluable interp f /\ sem B d apply f inp (map (wire_mem d (table (o_s f)) inp) (table (o_t f))).
+Proof. exact (@E1_discrete). Qed.
+
+Theorem C16_eval_tensor : forall B : Backend,
+       BackendOK B ->
+       forall (O A T : Type) (d : T) (interp : A -> list T -> list T)
+         (apply : list A -> ic (list T) -> res (ic (list T))),
+       apply_spec interp apply ->
+       forall f g : ohg O A,
+       evaluable interp f ->
+       evaluable interp g ->
+       exists t : ohg O A,
+         ohg_tensor f g = Ok t /\
+         evaluable interp t /\
+         (forall x y u v : list T,
+          length x = length (table (o_s f)) ->
+          sem B d apply f x u -> sem B d apply g y v -> sem B d apply t (x ++ y) (u ++ v)).
+Proof. exact (@E2_tensor). Qed.
+
+Theorem C16_eval_compose : forall B : Backend,
+       BackendOK B ->
+       forall (O A T : Type) (d : T) (interp : A -> list T -> list T)
+         (apply : list A -> ic (list T) -> res (ic (list T))),
+       apply_spec interp apply ->
+       forall Bc : Backend,
+       BackendOK Bc ->
+       forall eqO : O -> O -> bool,
+       (forall x y : O, eqO x y = true <-> x = y) ->
+       forall f g h : ohg O A,
+       evaluable interp f ->
+       evaluable interp g ->
+       ohg_compose Bc eqO f g = Ok (Some h) ->
+       evaluable interp h /\
+       (forall x u v : list T, sem B d apply f x u -> sem B d apply g u v -> sem B d apply h x v).
+Proof. exact (@E3_compose). Qed.
+
+Theorem C16_eval_gluing : forall B : Backend,
+       BackendOK B ->
+       forall (O A T : Type) (d : T) (interp : A -> list T -> list T)
+         (apply : list A -> ic (list T) -> res (ic (list T))),
+       apply_spec interp apply ->
+       forall f g h : ohg O A,
+       evaluable interp f ->
+       evaluable interp g ->
+       wf_ohg h ->
+       length (table (o_t f)) = length (table (o_s g)) ->
+       IsCompose (abs f) (abs g) (abs h) ->
+       evaluable interp h /\
+       (forall x u v : list T, sem B d apply f x u -> sem B d apply g u v -> sem B d apply h x v).
+Proof. exact (@E3_gluing). Qed.
+
+Theorem C16_eval_iso : forall B : Backend,
+       BackendOK B ->
+       forall (O A T : Type) (d : T) (interp : A -> list T -> list T)
+         (apply : list A -> ic (list T) -> res (ic (list T))),
+       apply_spec interp apply ->
+       forall f f' : ohg O A,
+       evaluable interp f ->
+       wf_ohg f' ->
+       Iso (abs f) (abs f') ->
+       evaluable interp f' /\
+       (forall inp : list T, eval B d apply f inp = eval B d apply f' inp) /\
+       (forall inp out : list T, sem B d apply f inp out <-> sem B d apply f' inp out).
+Proof. exact (@E4_iso). Qed.
+
+Theorem C16_eval_circuit_compose : forall B : Backend,
+       BackendOK B ->
+       forall (O A T : Type) (d : T) (interp : A -> list T -> list T)
+         (apply : list A -> ic (list T) -> res (ic (list T))),
+       apply_spec interp apply ->
+       forall Bc : Backend,
+       BackendOK Bc ->
+       forall eqO : O -> O -> bool,
+       (forall x y : O, eqO x y = true <-> x = y) ->
+       forall f g h : ohg O A,
+       circuit interp f ->
+       circuit interp g ->
+       ohg_compose Bc eqO f g = Ok (Some h) ->
+       circuit interp h /\
+       (forall x u v : list T, sem B d apply f x u -> sem B d apply g u v -> sem B d apply h x v).
+Proof. exact (@E3_circuit). Qed.
+
+Theorem C16_eval_circuit_tensor : forall B : Backend,
+       BackendOK B ->
+       forall (O A T : Type) (d : T) (interp : A -> list T -> list T)
+         (apply : list A -> ic (list T) -> res (ic (list T))),
+       apply_spec interp apply ->
+       forall f g : ohg O A,
+       circuit interp f ->
+       circuit interp g ->
+       exists t : ohg O A,
+         ohg_tensor f g = Ok t /\
+         circuit interp t /\
+         (forall x y u v : list T,
+          length x = length (table (o_s f)) ->
+          sem B d apply f x u -> sem B d apply g y v -> sem B d apply t (x ++ y) (u ++ v)).
+Proof. exact (@E2_circuit). Qed.
+
 Print Assumptions C16_refuses_iff_cyclic.
 Print Assumptions C16_total.
 Print Assumptions C16_computes.
@@ -106,3 +250,13 @@ Print Assumptions C16_any_order.
 Print Assumptions C16_numbering_independent.
 Print Assumptions C16_backend_independent.
 Print Assumptions C16_layers_of_layering.
+Print Assumptions C16_eval_singleton.
+Print Assumptions C16_eval_identity.
+Print Assumptions C16_eval_twist.
+Print Assumptions C16_eval_discrete.
+Print Assumptions C16_eval_tensor.
+Print Assumptions C16_eval_compose.
+Print Assumptions C16_eval_gluing.
+Print Assumptions C16_eval_iso.
+Print Assumptions C16_eval_circuit_compose.
+Print Assumptions C16_eval_circuit_tensor.
